@@ -192,7 +192,9 @@ def run (payload : String) : String :=
         | some cs => evaluate floatNum d cs (start d wrapper r))
       let spec := rs.map (fun r => specEval floatNum d ss (start d wrapper r))
       let same := (model.zip spec).all (fun (a, b) => a == b)
-      (Sexp.list (model.map resSx ++ [sym (if same then "ok" else "specdiff")])).render
+      -- the hypotheses of the C14 theorems, checked on every case: pre-order table, three-level grammar, no Null literal
+      let hyp := Doc.isPreOrder d && ss.all (fun s => s.preds.all (fun p => P.wf 3 p && P.noNull p))
+      (Sexp.list (model.map resSx ++ [sym (if !hyp then "hypothesis-fails" else if same then "ok" else "specdiff")])).render
     | _, _, _, _ => "bad-case"
   | _ => "bad-case"
 
